@@ -50,11 +50,7 @@ def run_c11(prop, tier, replay):
     r, exp = fa.decode_model(work, tier)
     print("TLC MC_AlphDecode_%s: %d distinct states, %d transitions, %.0fs; exported %d field cases, %d attestation cases, %d id classes"
           % (tier, r["distinct"], r["generated"], r["wall_s"], len(exp["CASES"]), len(exp["ATTEST"]), len(exp["IDS"])))
-    if replay:
-        rp = json.load(open(replay))
-        want = {json.dumps(v["detail"]["line"]["a"], sort_keys=True) for v in rp.get("violations", []) if v.get("detail", {}).get("line")}
-        exp["CASES"] = [c for c in exp["CASES"] if json.dumps({"n": c["n"], "f": c["f"]}, sort_keys=True) in
-                        {json.dumps({"n": json.loads(w).get("n"), "f": json.loads(w).get("f")}, sort_keys=True) for w in want}] or exp["CASES"]
+    # --replay: the whole class enumeration is re-evaluated (it takes seconds); the replay file only names the failing classes
     # source extraction: the contract's ladder must be the layout TLC printed
     lay = [(f["name"], f["len"]) for f in exp["LAYOUT"]["fields"]]
     src = fa.layout_from_source()
@@ -65,6 +61,15 @@ def run_c11(prop, tier, replay):
     print("evaluated %d cases on the real functions; trace validation: %d states, %.1fs, %d rejected line(s)"
           % (len(lines), tr["distinct"], tr["wall_s"], len(rejs)))
     byn = {ln["n"]: ln for ln in lines}
+    # negative self-test of the trace specification: an accepted evaluation with one corrupted field must be rejected
+    rejected_n = {rj["n"] for rj in rejs}
+    good = next((ln for ln in lines if ln["ev"] == "Decode" and ln["s"].get("out") == "ok" and ln["n"] not in rejected_n), None)
+    if good is not None:
+        bad = json.loads(json.dumps(good))
+        bad["s"]["eq"][1] = False
+        neg, _ = fa.decode_validate(work, [good, bad])
+        if [x["n"] for x in neg] != [bad["n"]] and len(neg) != 1:
+            raise vlib.Broken("Trace_AlphDecode self-test: a corrupted evaluation was not rejected")
     verdict = vlib.Verdict(prop)
     # single-field rejections first (for attribution of pairs)
     single = {}
@@ -117,9 +122,9 @@ def run(prop, tier, replay=None):
 
 PLAN = {
     # prop: tier: (MC configs, [(tlc profile, n, depth, overrides)], [(generator family, n)])
-    "C08": {"quick": (["poll_quick", "reobs_quick", "fail_quick"], [("poll", 10, 22, {})],
+    "C08": {"quick": (["poll_quick", "reobs_quick", "fail_quick", "attest_quick"], [("poll", 10, 22, {})],
                       [("poll", 14), ("reorg", 8), ("reobs", 18), ("apifail", 6)]),
-            "thorough": (["poll_thorough", "reobs_thorough", "fail_thorough"], [("poll", 120, 26, {}), ("reobs", 60, 22, {"MaxReq": 2})],
+            "thorough": (["poll_thorough", "reobs_thorough", "fail_thorough", "attest_thorough"], [("poll", 120, 26, {}), ("reobs", 60, 22, {"MaxReq": 2})],
                          [("poll", 260), ("reorg", 120), ("reobs", 260), ("apifail", 80)])},
     "C09": {"quick": (["junk_quick", "live_quick"], [("live", 8, 20, {"MaxReq": 0, "MaxLook": 0, "Mainnets": "{FALSE}"})],
                       [("race", 18), ("junk", 26)]),
@@ -168,6 +173,7 @@ def run_watch(prop, tier, replay=None):
             scenarios += fa.tlc_scenarios(work, n, depth, seed, prof, ov)
         for fam, n in gens:
             scenarios += fa.gen_scenarios(seed, n, fam)
+        scenarios += fa.pinned(prop)
     lines, crashes, wall = fa.watch_run(work, scenarios, jobs)
     raw = len(lines)
     lines = fa.compress(lines)
@@ -179,6 +185,22 @@ def run_watch(prop, tier, replay=None):
     by_t = {}
     for ln in lines:
         by_t.setdefault(ln["t"], []).append(ln)
+    # negative self-test of the trace specification: an accepted scenario in which one output is logged twice (a second
+    # forward of the same event by the polling path) must be rejected at exactly that line
+    rej_t = {rj["t"] for rj in rejs}
+    selftest = None
+    for t, ls in by_t.items():
+        outs = [i for i, x in enumerate(ls) if x["ev"] == "Out"]
+        if t in rej_t or not outs or any(x["ev"] == "Env" and x["a"]["op"] == "req" for x in ls):
+            continue
+        cor = [dict(x) for x in ls[:outs[0] + 1]] + [dict(ls[outs[0]])] + [dict(x) for x in ls[outs[0] + 1:]]
+        for i, x in enumerate(cor):
+            x["n"] = i + 1
+        neg, _ = fa.watch_validate(work, cor)
+        selftest = bool(neg) and neg[0]["l"] == outs[0] + 2
+        if not selftest:
+            raise vlib.Broken("Trace_AlphWatcher self-test: a duplicated output was not rejected (scenario %d)" % t)
+        break
     verdict = vlib.Verdict(prop)
     sigs, others = Counter(), Counter()
     for rj in rejs:
@@ -237,7 +259,7 @@ def run_watch(prop, tier, replay=None):
                 "Watcher.Run that TLC explained with an action of AlphWatcher/AlphChain; distinct = distinct (page content class | metadata "
                 "answer shape | main-chain / status answer | emitted event class)",
         "mc_configs": mcs, "trace_spec_states": r["distinct"], "requests_by_route": dict(routes), "effects_observed": dict(effects),
-        "scenario_families": dict(fams), "messages_the_spec_required": expected, "process_deaths": len(crashes),
+        "scenario_families": dict(fams), "trace_spec_negative_selftest": selftest, "messages_the_spec_required": expected, "process_deaths": len(crashes),
         "rejected_signatures": dict(sigs), "rejected_other_properties": dict(others),
         "known_findings_matched": getattr(verdict, "n_known", 0), "exhaustive": False,
     }
